@@ -53,7 +53,7 @@ def anchors():
 
 def gen_cases(tier, seed):
     r = gen.rng(seed, "c15")
-    sources = [("n77", f) for f in N77] + [("synthetic", i) for i in range(8)]
+    sources = [("n77", f) for f in N77] + [("synthetic", i) for i in range(9)]
     reps = 2 if tier == "quick" else 40
     for src in sources:
         for entry in CHEAP:
@@ -70,7 +70,8 @@ def gen_cases(tier, seed):
         yield {"kind": "isosteric", "seed": r.randrange(1 << 30)}
     for entry, src, force in (("area_BET", 4, [["absolute", "bar"], ["molar", "mmol"]]), ("t_plot", 4, [["absolute", "bar"], ["mass", "mg"]]), ("dr_plot", 4, [["absolute", "kPa"], ["molar", "mol"]]),
                               ("initial_henry_slope", 5, [["absolute", "MPa"], ["mass", "mg"]]), ("initial_henry_slope", 5, [["absolute", "bar"], ["molar", "cm3(STP)"]]),
-                              ("initial_henry_slope", 5, [["absolute", "Pa"], ["mass", "g"]])):
+                              ("initial_henry_slope", 5, [["absolute", "Pa"], ["mass", "g"]]), ("initial_henry_slope", 8, [["absolute", "Pa"], ["molar", "mmol"]]),
+                              ("initial_henry_slope", 8, [["absolute", "kPa"], ["molar", "mol"]]), ("initial_henry_virial", 8, [["absolute", "Pa"], ["molar", "mmol"]])):
         yield {"kind": "twin", "entry": entry, "source": ["synthetic", src], "seed": r.randrange(1 << 30), "force": force}
     # integer-typed recordings in the very units a method reads, against the same data in another representation
     for entry in ("psd_meso:pygaps-DH", "psd_meso:BJH", "psd_meso:DH", "t_plot", "area_BET", "dr_plot"):
@@ -114,7 +115,7 @@ def _load(name, folder="characterisation"):
 def _synthetic(i):
     """Type II/IV-like isotherms at temperatures where p0 is far from 1 bar (so that bar and relative pressure differ)."""
     import pygaps
-    ads, T = [("nitrogen", 70.0), ("nitrogen", 90.0), ("argon", 100.0), ("verif-c15-vapour", 300.0), ("nitrogen", 77.355), ("nitrogen", 77.355), ("nitrogen", 77.355), ("nitrogen", 77.355)][i]
+    ads, T = [("nitrogen", 70.0), ("nitrogen", 90.0), ("argon", 100.0), ("verif-c15-vapour", 300.0), ("nitrogen", 77.355), ("nitrogen", 77.355), ("nitrogen", 77.355), ("nitrogen", 77.355), ("nitrogen", 77.355)][i]
     if i == 3:
         # a user-defined vapour without thermodynamic backend: everything comes from the properties the user supplied
         # (saturation pressure in Pa, densities in g/cm3, surface tension in mN/m, as documented)
@@ -126,6 +127,11 @@ def _synthetic(i):
         # recorded directly in percent of the saturation pressure
         return pygaps.PointIsotherm(pressure=list(p * 100), loading=list(n), branch="ads", material="verif-c15-4", adsorbate=ads, temperature=T, pressure_mode="relative%",
                                     **{k: v for k, v in gen.DEFAULT_UNITS.items() if not k.startswith("pressure")})
+    if i == 8:
+        # a recording that starts at a few percent of saturation, its first reading showing no uptake yet (zero loading at a
+        # pressure above zero - in Pa a number larger than any loading of the series)
+        p, n = p[25:], n[25:].copy()
+        n[0] = 0.0
     if i in (6, 7):
         # as an instrument writes it: whole numbers (an integer column), in the units it works in - liquid volume per kg of sample
         # (the unit the pore-volume methods read themselves), or cm3(STP) per g
@@ -327,6 +333,11 @@ def _run_twin(case, ctx):
             # told apart from a missing or wrong unit factor (orders of magnitude)
             lim = 1e12 if entry == "initial_henry_virial" else 10  # (the Virial polynomial in raw loading units has no usable bound)
             sub = "optimiser-dependent-on-data-scale" if 1.0 / lim < ratio < lim else "gross"
+            if entry == "initial_henry_slope" and sub != "gross" and case["source"][0] == "synthetic" and case["source"][1] not in (5, ):
+                # the recorded optimiser-quality deviations were observed on measured isotherms and on the high-affinity sample
+                # (sub-fits that stall at their start); on the smooth synthetic recordings every sub-fit converges and a deviation
+                # of the same size is not that mechanism
+                sub = "deviation-on-a-smooth-synthetic-recording"
             ctx.violation("%s/unit-factor/%s" % (key, sub), "the Henry constant does not change by exactly the unit factors", a=ka, b=kb, expected=ka * fn / fp, ratio=ratio, **info)
         return
     if entry.startswith("initial_henry") and how == "scale":
